@@ -46,10 +46,34 @@ func (e *Engine) externalModel(fr *frame, ins ssa.Instruction, name string, fn *
 		v, r, ok := unary("gs_lower", strings.ToLower)
 		e.sc.assume(eq(app("gs_lower", e.scalar(v).T), e.scalar(v).T))
 		return v, r, ok
-	case "strings.HasPrefix":
-		return pred("gs_hasprefix", strings.HasPrefix)
-	case "strings.HasSuffix":
-		return pred("gs_hassuffix", strings.HasSuffix)
+	case "strings.HasPrefix", "strings.HasSuffix":
+		isPre := name == "strings.HasPrefix"
+		op := "gs_hassuffix"
+		if isPre {
+			op = "gs_hasprefix"
+		}
+		var v Val
+		var r string
+		if isPre {
+			v, r, _ = pred(op, strings.HasPrefix)
+		} else {
+			v, r, _ = pred(op, strings.HasSuffix)
+		}
+		// with a literal affix: the string is at least as long and carries the affix's bytes
+		if lit, ok := e.litOf(str(1)); ok && len(lit) <= 8 {
+			e.needStrOp("gs_bytes", []string{SStr}, arrSort(SI64, SI8))
+			sl := app("gs_len", str(0))
+			facts := []string{app("bvsge", sl, bvLit(uint64(len(lit)), 64))}
+			for i := 0; i < len(lit); i++ {
+				idx := bvLit(uint64(i), 64)
+				if !isPre {
+					idx = app("bvadd", app("bvsub", sl, bvLit(uint64(len(lit)), 64)), bvLit(uint64(i), 64))
+				}
+				facts = append(facts, eq(sel(app("gs_bytes", str(0)), idx), bvLit(uint64(lit[i]), 8)))
+			}
+			e.sc.assume(implies(e.scalar(v).T, and(facts...)))
+		}
+		return v, r, true
 	case "strings.Contains":
 		return pred("gs_contains", strings.Contains)
 	case "strings.EqualFold":
@@ -180,12 +204,20 @@ func (e *Engine) externalModel(fr *frame, ins ssa.Instruction, name string, fn *
 		return e.freshVal(types.Typ[types.String], "sprintf"), reach, true
 	case "fmt.Printf", "fmt.Println", "fmt.Print", "fmt.Fprintf", "fmt.Fprintln":
 		use()
+		e.ghostEvent("print", reach, "")
 		return e.havocResult(resT, "printf"), reach, true
 	case "log.Printf", "log.Println", "log.Print":
 		use()
 		return nil, reach, true
 	case "log.Fatalf", "log.Fatal", "log.Fatalln", "os.Exit", "log.Panicf", "log.Panic":
 		use()
+		code := bvLit(1, 64)
+		if name == "os.Exit" {
+			code = e.toInt64(e.scalar(args[0]), fn.Signature.Params().At(0).Type())
+		}
+		if !e.pure {
+			e.exitSites = append(e.exitSites, exitSite{cond: reach, code: code, heap: heap.clone(), pos: e.posOf(ins.Pos()), nwrites: len(e.ghostWrites)})
+		}
 		return nil, "false", true
 	case "(encoding/binary.littleEndian).PutUint16", "(encoding/binary.littleEndian).PutUint32", "(encoding/binary.littleEndian).PutUint64":
 		use()
